@@ -19,7 +19,9 @@ from core import Built
 PROPERTY = "C07"
 RULE = ("five families, real temp directories on the implementation side. vhdx: differencing chains depth 2..4, per-block states "
         "incl. partially-present blocks with per-sector bitmaps (runs of 1..64 sectors, arbitrary alignment), parent locator relative / "
-        "absolute / both / missing. hdd: Parallels snapshot trees (chains depth 1..4 + side branches, explicit and default TopGUID, "
+        "absolute / both / missing; fixed grid of 18 chains (depth 2..4) with explicit sector bitmaps in the top layer and the layer below, stream "
+        "buffers that are no multiple of eight sectors (512, 1536, 2560, 3584, 7680, 66048; 4 KiB sectors: 4096, 12288, 20480) and "
+        "read_sectors(sector, count) at start sectors that are no multiple of eight. hdd: Parallels snapshot trees (chains depth 1..4 + side branches, explicit and default TopGUID, "
         "plain roots, XML order shuffled, moved directories; an unresolvable ancestor at every depth — unknown ParentGUID of the opened snapshot, "
         "of its parent ... of the root, or the ancestor's Shot deleted — with all image files present: opening must fail). qcow2: backing chains (raw / qcow2, shorter / longer), internal "
         "snapshots read after the active image has been read (history), missing backing. vdi: parent chains. vmdk: delta descriptors "
@@ -68,6 +70,20 @@ def generate(seed, tier):
         r["missing"] = rng.random() < 0.12
         cases.append({"id": f"x{i}", "fam": "vhdx", "recipe": r, "align": rng.choice([8192] * 4 + [4096, 65536, 1 << 20]),
                       "queries": gen_vhdx.gen_queries(rng, r, 8 if tier == "quick" else 14)})
+    # vhdx, directed (own generator, fixed grid): chains of depth 2..4 in which the top layer and the layer below it hold partially-present
+    # blocks at the same guest offset (explicit bitmaps: runs changing inside bitmap bytes, whole-byte runs, single sectors at odd
+    # positions); stream buffers that are sector multiples but no multiple of eight sectors, so that back-end requests begin inside a
+    # byte of the sector bitmap; read_sectors(sector, count) at start sectors that are no multiple of eight
+    xrng = random.Random(f"C07vhdx-sector/{seed}/{tier}")
+    for i in range(18 if tier == "quick" else 180):
+        ss = 4096 if i % 4 == 3 else 512
+        r = gen_vhdx.gen_diff_recipe(xrng, tier, depth=2 + i % 3, ss=ss, shape=i)
+        r["missing"] = False
+        al = {512: [1536, 512, 2560, 8192, 7680, 3584, 66048, 4096], 4096: [4096, 12288, 20480, 8192]}[ss]
+        sq = gen_vhdx.gen_sector_queries(xrng, r, 8)
+        oq = gen_vhdx.gen_queries(xrng, r, 6)
+        qs = [q for pair in zip(sq, oq + oq) for q in pair][: 8 + len(oq)] if sq else oq
+        cases.append({"id": f"xs{i}", "fam": "vhdx", "recipe": r, "align": al[(i // 4 if ss == 4096 else i - i // 4) % len(al)], "queries": qs})
     for i in range(n):
         r = gen_hdd.gen_recipe(rng, tier, max_depth=4)
         r["variant"] = rng.choice(["ok", "ok", "ok", "missing_image", "moved"])
@@ -124,12 +140,14 @@ def build(case):
         names = t.names()
         files = {f"l{k}": im for k, (_, im, _) in enumerate(t.layers)}
         missing = r.get("missing")
-        truth = ["E"] if missing else core.truth_ops(t.size, t.read, case["queries"])
         top = r["layers"][-1]
+        truth = ["E"] if missing else core.truth_ops(t.size, t.read, case["queries"], sector_size=top["ss"])
         bs = top["bs"]
-        crosses = any(q[2] > 0 and q[1] < t.size and q[1] // bs != (min(q[1] + q[2], t.size) - 1) // bs for q in case["queries"])
+        crosses = any(q[0] == "o" and q[2] > 0 and q[1] < t.size and q[1] // bs != (min(q[1] + q[2], t.size) - 1) // bs for q in case["queries"])
         partial = any(7 in l["blocks"] for l in r["layers"])
-        b = Built(files, truth, {"branches": ["vhdx", f"depth{len(names)}", f"loc_{top['locator']}"] + (["partial"] if partial else []) + (["missing"] if missing else []),
+        sect = ["read_sectors-unaligned"] if any(q[0] == "S" and q[1] % 8 for q in case["queries"]) else []
+        b = Built(files, truth, {"branches": ["vhdx", f"depth{len(names)}", f"loc_{top['locator']}"] + (["partial"] if partial else []) + (["missing"] if missing else []) + sect +
+                                 ([f"align{case['align']}"] if case["align"] % (8 * top["ss"]) else []),
                                  "crosses": crosses or partial, "depth": len(names), "in_scope": True, "missing": missing})
         b.t = t
         return b
@@ -226,7 +244,7 @@ def impl_run(case, built):
                 v = VHDX(Path(d) / names[-1])
             except Exception as e:  # noqa
                 return {"answers": ["E"], "errors": {"0": f"{type(e).__name__}: {e}"}}
-            return core.impl_ops(v, case["queries"])
+            return core.impl_ops_sec(v, case["queries"])
         if fam == "hdd":
             from dissect.hypervisor.disk.hdd import HDD
             t = built.t
